@@ -16,6 +16,9 @@ pub mod watch;
 
 mod test_framework;
 
+#[cfg(feature = "verif-hooks")]
+pub mod verif;
+
 #[cfg(test)]
 mod tests;
 
@@ -921,6 +924,9 @@ where
         modules.extends_glossary(&mut self.glossary);
 
         for name in modules.sequence(&our_modules)? {
+            #[cfg(feature = "verif-hooks")]
+            crate::verif::module_inferred(&name);
+
             if let Some(module) = modules.remove(&name) {
                 let (checked_module, warnings) = module.infer(
                     &self.id_gen,
@@ -1170,10 +1176,22 @@ where
             })
             .collect::<Vec<_>>();
 
+        #[cfg(feature = "verif-hooks")]
+        crate::verif::audit_tests(&tests);
+
+        #[cfg(feature = "verif-hooks")]
+        let (tests, verif_results) = crate::verif::intercept_run(tests, &|test: Test| {
+            test.run(seed, max_success, plutus_version, tracing)
+        });
+
+        #[cfg_attr(feature = "verif-hooks", allow(unused_mut))]
         let mut results = tests
             .into_par_iter()
             .map(|test| test.run(seed, max_success, plutus_version, tracing))
             .collect::<Vec<TestResult<(Constant, Rc<Type>), PlutusData>>>();
+
+        #[cfg(feature = "verif-hooks")]
+        let mut results = verif_results.unwrap_or(results);
 
         // Assertion operands are only displayed for failed unit tests, so
         // generating and evaluating them is deferred until here rather than
